@@ -83,20 +83,24 @@ def seg_case_term(r):
     comp = r["comp"] == "lz4"
     cph = r.get("cmp_hex") if comp else None
     cplen = r.get("cmp_len", 0) if comp else 0
+    hexp = d["pat"] == "hex"        # payload found by a search of the harness and given literally
+    pay = hx(d["hex"]) if hexp else "%d %d %d" % (PAT[d["pat"]], d["len"], d["seed"])
     if r.get("dec", {}).get("class") == "err":
         # the implementation does not decode what it encoded.  When the third-party block is itself not an encoding of the
         # payload (known class lz4-offset-65536) the model's oracle cannot mimic it: not modellable.  Otherwise the model,
         # which has the size checks of decodeSegmentPayload and no others, must fail as well.
         if (r.get("diag") or {}).get("kind") == "lz4-block-corrupt-above-64KiB":
             return None
-        return "negb (seg_decodes %s %s %d %d %d %s %s %s)" % (b(comp), b(r["sc"]), PAT[d["pat"]], d["len"], d["seed"], opt_hx(cph), z(cplen), hx(r["rest"]))
+        return "negb (seg_decodes%s %s %s %s %s %s %s)" % ("_p" if hexp else "", b(comp), b(r["sc"]), pay, opt_hx(cph), z(cplen), hx(r["rest"]))
     if r.get("dec", {}).get("class") != "ok":
         return None
+    if not r["dec"].get("payload_eq") and (r.get("diag") or {}).get("kind") == "lz4-block-corrupt-above-64KiB":
+        return None     # wrong bytes because the third-party block is corrupt (known class): the model's oracle cannot mimic it
     post = r["post"]
-    return "seg_case %s %s %d %d %d %s %s %d %s %s %s (%s, %s, %s) %s %s" % (
-        b(comp), b(r["sc"]), PAT[d["pat"]], d["len"], d["seed"], opt_hx(cph), z(cplen), r["total"],
+    return "seg_case%s %s %s %s %s %s %d %s %s %s (%s, %s, %s) %s %s %s" % (
+        "_p" if hexp else "", b(comp), b(r["sc"]), pay, opt_hx(cph), z(cplen), r["total"],
         hx(r["head"]), hx(r["trailer"]), opt_hx(r.get("full")), z(post["ulen"]), z(post["clen"]), n(post["crc32"]),
-        hx(r["rest"]), dec_obs(r["dec"]))
+        hx(r["rest"]), dec_obs(r["dec"]), b(r["dec"].get("payload_eq")))
 
 
 def raw_case_term(r):
@@ -129,8 +133,14 @@ def judge_segment(r, findings, nontrivial):
     if not d["payload_eq"]:
         diag = r.get("diag", {})
         extra = {"class": "lz4-offset-65536", "algorithm": "lz4"} if diag.get("kind") == "lz4-block-corrupt-above-64KiB" else {}
-        findings.append(dict(ident, kind=diag.get("kind", "roundtrip-payload-differs"), diagnosis=diag, **extra,
-                             what="segment round trip returns a different payload without error (%d bytes, %s); first difference at offset %s" % (ln, r["comp"], diag.get("first_diff"))))
+        kind = diag.get("kind", "roundtrip-payload-differs")
+        note = ""
+        if diag.get("block_is_not_an_encoding_of_input") is False:
+            # the independent LZ4 decoder reproduces the payload from the library's block: the codec around it is at fault
+            kind = "roundtrip-payload-differs"
+            note = "; the LZ4 block is a correct encoding of the payload, so the segment codec / wrapper returned the wrong bytes"
+        findings.append(dict(ident, kind=kind, diagnosis=diag, compressed_len=r.get("cmp_len"), decoded=d, **extra,
+                             what="segment round trip returns a different payload without error (%d bytes, %s); first difference at offset %s%s" % (ln, r["comp"], diag.get("first_diff"), note)))
         return
     exp_clen = 0
     if r["comp"] == "lz4" and k == "seg":
